@@ -130,6 +130,10 @@ class ArmWalker:
         self.loop = []                      # stack of (direction, over)
         self.dead = False                   # the arm has ended on this path (break/return/throw)
         self.array_inits = {}               # local raw array -> its InitListExpr
+        self.inlined = {}                   # id(call) -> class of the value the inlined callee returns
+        self.inline_depth = 0
+        self.ret_stack = []                 # return classes collected while inlining
+        self.param_exprs = []               # per inlined frame: parameter -> argument expression
 
     # -- classification of container expressions ------------------------------------------------
     def cls_of(self, e, depth=0):
@@ -182,6 +186,11 @@ class ArmWalker:
             if nm in ('TupleGetSize', 'ListGetSize', 'DictGetSize'):
                 return 'len(%s)' % self.cls_of(a[0], depth + 1)
             if nm == 'operator()':
+                if e.kind == 'CXXOperatorCallExpr' and len(e.kids) >= 2 and \
+                        'lambda' in (e.kids[1].type or ''):
+                    r = self.inline(e)
+                    if r is not None:
+                        return r
                 # flatten_func(handle) result, getattr(x, copy)()
                 txt = e.text(5)
                 if 'flatten_func' in txt and 'unflatten_func' not in txt:
@@ -200,7 +209,112 @@ class ArmWalker:
                 return 'TYPEOF(%s)' % self.cls_of(a[0], depth + 1)
             if nm == 'make_tuple':
                 return 'TUPLE[%s]' % ','.join(self.cls_of(x, depth + 1) for x in a)
+            r = self.inline(e)
+            if r is not None:
+                return r
         return 'UNKNOWN'
+
+    # -- small helpers / local lambdas are looked through -----------------------------------------
+    NO_INLINE = {'GetKind', 'TotalOrderSort', 'DictKeys', 'SortedDictKeys', 'PyRepr', 'GetType',
+                 'GetPathEntryType', 'MakeNode', 'IsDictInsertionOrdered', 'Lookup'}
+
+    def _lambda_of(self, callee_expr):
+        """Func of the local lambda a call goes to, or None"""
+        name = member_path(strip_casts(callee_expr)) if callee_expr is not None else None
+        if not name or self.func.body is None:
+            return None
+        owner = self.func
+        for v in owner.body.walk(into_lambdas=True):
+            if v.kind == 'VarDecl' and v.name == name and v.kids and v.kids[-1] is not None:
+                for l in v.kids[-1].walk(into_lambdas=False):
+                    if l.kind == 'LambdaExpr':
+                        return self.prog.lambda_func(owner, l)
+        return None
+
+    def _is_visitor(self, lam):
+        """the lambda recurses into the traversal it belongs to (it visits a child)"""
+        if lam is None or lam.body is None:
+            return False
+        owner = self.prog.funcs.get(lam.parent)
+        for c in calls_in(lam.body):
+            t = self.prog.target(lam, c) if c.kind in CALL_KINDS else None
+            if t is not None and owner is not None and t.qualname == owner.qualname:
+                return True
+        return False
+
+    def _subst_param(self, cond):
+        """inside an inlined helper, a condition that is just a (bool) parameter stands for the
+        argument expression of the call (so that `if (should_sort)` is decided per kind)"""
+        if not self.param_exprs or cond is None:
+            return cond
+        c = strip_casts(cond)
+        if c is not None and c.kind == 'DeclRefExpr':
+            nm = (c.ref or {}).get('name')
+            if nm in self.param_exprs[-1]:
+                return self.param_exprs[-1][nm]
+        return cond
+
+    def inline(self, call):
+        """walk the body of a small repo helper / local lambda with its parameters bound to the
+        classes of the arguments; events are recorded in place; returns the class of the returned
+        value (None when the call is not inlined)"""
+        if id(call) in self.inlined:
+            return self.inlined[id(call)]
+        if self.inline_depth >= 2:
+            return None
+        callee = None
+        args = call.call_args()
+        if call.kind == 'CXXOperatorCallExpr' and call.callee_name() == 'operator()' and len(call.kids) >= 2:
+            lam = self._lambda_of(call.kids[1])
+            if lam is not None and not self._is_visitor(lam):
+                callee = lam
+                args = call.kids[2:]
+        elif call.kind in CALL_KINDS and call.callee_name() not in self.NO_INLINE:
+            t = self.prog.target(self.func, call)
+            if t is not None and t.body is not None and not t.dependent and t.qualname != self.func.qualname:
+                callee = t
+        if callee is None or callee.body is None:
+            return None
+        if sum(1 for _ in callee.body.walk()) > 400:
+            return None
+        pnames = [p_[0] for p_ in callee.params]
+        bound = {}
+        selfs = set()
+        for pn, a in zip(pnames, args):
+            if pn and a is not None:
+                c = self.cls_of(a)
+                bound[pn] = c
+                if c == 'SELF':
+                    selfs.add(pn)
+        saved = (self.alias, self.self_names, self.func, self.dead, self.loop)
+        # a lambda sees the enclosing aliases (captures); a free helper only its parameters
+        self.alias = dict(self.alias, **bound) if callee.is_lambda else dict(bound)
+        self.self_names = (set(self.self_names) if callee.is_lambda else set()) | selfs
+        for pn in bound:
+            if pn not in selfs:
+                self.self_names.discard(pn)
+        self.func = callee if not callee.is_lambda else self.func
+        self.dead = False
+        self.inline_depth += 1
+        self.ret_stack.append([])
+        self.param_exprs.append({pn: a for pn, a in zip(pnames, args) if pn and a is not None})
+        try:
+            self.stmt(callee.body)
+        finally:
+            self.param_exprs.pop()
+            rets = self.ret_stack.pop()
+            self.inline_depth -= 1
+            out_alias = self.alias
+            self.alias, self.self_names, self.func, self.dead, self.loop = saved
+            if callee.is_lambda:
+                # assignments to captured variables are visible afterwards
+                for k_, v_ in out_alias.items():
+                    if k_ not in bound and (k_ in self.alias or '.' in k_):
+                        self.alias[k_] = v_
+        vals = [r for r in rets if r is not None]
+        res = vals[0] if vals and all(v == vals[0] for v in vals) else ('CALLRESULT' if not vals else 'UNKNOWN')
+        self.inlined[id(call)] = res
+        return res
 
     # -- statement walk ------------------------------------------------------------------------
     def walk(self, stmts):
@@ -236,6 +350,7 @@ class ArmWalker:
                 self.stmt(kids.pop(0))
             cond, then = kids[0], (kids[1] if len(kids) > 1 else None)
             els = kids[2] if len(kids) > 2 else None
+            cond = self._subst_param(cond)
             v = eval_kind_cond(cond, self.kind, self.subject)
             if v is True:
                 self.stmt(then)
@@ -307,6 +422,16 @@ class ArmWalker:
             self.events.append(('endloop',))
             return
         if k == 'ReturnStmt':
+            if self.ret_stack:
+                # return of an inlined helper: its value is the value of the call
+                v = s.kids[0] if s.kids else None
+                if v is not None:
+                    self.ret_stack[-1].append(self.cls_of(v))
+                    self.expr(v)
+                else:
+                    self.ret_stack[-1].append(None)
+                self.dead = True
+                return
             if s.kids and s.kids[0] is not None:
                 self.expr(s.kids[0])
             self.events.append(('return', s))
@@ -411,7 +536,10 @@ class ArmWalker:
             elif nm == 'operator()' and c.kind == 'CXXOperatorCallExpr':
                 callee = c.kids[1]
                 cp = member_path(callee) or ''
-                if cp == 'recurse' or (callee is not None and 'lambda' in (callee.type or '')):
+                lam = self._lambda_of(callee) if callee is not None and 'lambda' in (callee.type or '') else None
+                if lam is not None and not self._is_visitor(lam):
+                    self.inline(c)          # a helper lambda: looked through
+                elif cp == 'recurse' or (callee is not None and 'lambda' in (callee.type or '')):
                     args = c.kids[2:]
                     ent = entry_kind(args[1], self) if len(args) >= 2 else None
                     src = self.cls_of(args[0]) if args else None
@@ -448,6 +576,10 @@ class ArmWalker:
                 self.events.append(('validate', 'type-is-' + nm[len('AssertExact'):], 'value_error', c))
             elif nm in ('DictKeysEqual',):
                 self.events.append(('keyset', [self.cls_of(x) for x in a], c))
+            elif c.kind in CALL_KINDS and nm not in self.NO_INLINE and \
+                    nm not in ('TupleGetSize', 'ListGetSize', 'DictGetSize', 'reinterpret_borrow',
+                               'thread_safe_cast', 'cast', 'move', 'getattr', 'make_tuple', 'of', 'handle_of'):
+                self.inline(c)
 
     def arg_desc(self, x):
         if x is None:
